@@ -21,12 +21,19 @@ type Options struct {
 	// RefDriven: bytes on which the reference rejects are not followed (inclusion on reference-accepted input).
 	RefDriven bool
 	// OnMatch is called for every matched pair of non-exit edges (extra, rule-specific obligations).
-	OnMatch func(si, sr int, b byte, ei, er *lts.Edge) []string
+	// It may return messages (mismatches) and extra (impl, ref) pairs to explore, each reached by the given extra bytes.
+	OnMatch func(si, sr int, b byte, ei, er *lts.Edge) ([]string, []Extra)
 	// EOFPrims compares primitives executed at end of input (nil = ignored).
 	ImplEOFMarks func(o *lts.EOFOutcome) []string
 	MaxPairs     int
 	// CompareExtra: the additional result carried by successful exits must agree.
 	CompareExtra bool
+}
+
+// Extra is an additional product pair requested by a rule-specific hook.
+type Extra struct {
+	Impl, Ref int
+	Bytes     []byte
 }
 
 // Mismatch is one cell on which model and reference differ.
@@ -191,8 +198,12 @@ func Bisim(impl, ref *lts.LTS, startI, startR int, o Options) (Stats, []Mismatch
 						}
 					}
 					if o.OnMatch != nil {
-						for _, msg := range o.OnMatch(p.i, p.r, byte(b), ei, er) {
+						msgs, extra := o.OnMatch(p.i, p.r, byte(b), ei, er)
+						for _, msg := range msgs {
 							mm(b, msg, ei.Pos, byte(b))
+						}
+						for _, ex := range extra {
+							enqueue(p, append([]byte{byte(b)}, ex.Bytes...), pair{ex.Impl, ex.Ref})
 						}
 					}
 					switch ti.Kind {
